@@ -66,9 +66,14 @@ def expr_grammar(depth, thorough=False):
     for _ in range(depth - 1):
         nxt = []
         for e in level:
+            lvalue = e in ('x', 'y') or e.startswith('a[') or e.startswith('*(')
             for op in ('-', '+', '!', '~', '++', '--', 'sizeof', '*', '&'):
+                if op in ('++', '--') and not lvalue:
+                    continue          # `++1`, `++(x + y)` are not C
                 nxt.append(f'sizeof({e})' if op == 'sizeof' else f'{op}({e})')
-            nxt += [f'({e})++', f'({e})--', f'(int)({e})', f'f({e})', f'a[{e}]', f'({e})[1]']
+            if lvalue:
+                nxt += [f'({e})++', f'({e})--']
+            nxt += [f'(int)({e})', f'f({e})', f'a[{e}]', f'({e})[1]']
             for e2 in leaves:
                 for op in ('+', '*', '<', '&&'):
                     nxt.append(f'({e}) {op} {e2}')
@@ -103,7 +108,9 @@ def grammar_programs(thorough):
         eff = [e for e in exprs if any(t in e for t in ('++', '--', '=')) and '==' not in e]
         rest = [e for e in exprs if e not in set(eff)]
         exprs = eff[:2500] + rest[::7]
-    sig = 'int f(int x,int y,int z,int *a,int n,int i)'
+    # no pointer / array parameter: a declaration of that kind is itself unsupported and would make every
+    # program of the grammar 'not fully supported' (the array name `a` is simply left undeclared)
+    sig = 'int f(int x,int y,int z,int n,int i)'
     for e in exprs:
         out.append(f'{sig}{{ {e}; }}')
         out.append(f'{sig}{{ z = {e}; }}')
